@@ -30,6 +30,7 @@ def exclusive(via=threading.Lock) -> Callable[[C], C]:
                 try:
                     return fnc(*args, **kwargs)
                 finally:
+                    point("guard.releasing")
                     fnc_guard.release()
                     point("guard.release")
             else:
